@@ -101,7 +101,7 @@ class PathExplorer:
         self.states = 0
         self.pruned = 0
 
-    def run(self, max_states=400000, start=0, blocked=frozenset()):
+    def run(self, max_states=400000, start=0, blocked=frozenset(), blocked_edges=frozenset()):
         """Explore from `start` (default: entry) with no initial facts; blocks in `blocked` are dead ends.
         self.visited_bbs holds every block some abstract state reached."""
         body = self.body
@@ -116,7 +116,7 @@ class PathExplorer:
             if self.states > max_states:
                 raise RuntimeError("state explosion")
             for nxt in self.step(node):
-                if nxt[0] is not None and nxt[0] in blocked:
+                if nxt[0] is not None and (nxt[0] in blocked or (node[0], nxt[0]) in blocked_edges):
                     continue
                 if nxt[0] is not None:
                     self.visited_bbs.add(nxt[0])
@@ -164,6 +164,30 @@ class PathExplorer:
         # a Result / Option / ControlFlow built here has a known variant (both under the aggregate's identity and under the
         # local that holds it: a value assigned on several paths is identified by its local)
         for st in body.stmts(bb):
+            # constant booleans, their negation and plain moves carry a known value along (matches!(..) lowers to a bool local
+            # set in the arms of one switch and tested by the next)
+            if st["k"] == "assign" and not st["lhs"]["p"] and st["rv"]["r"] in ("use", "un"):
+                rv = st["rv"]
+                lkey = ("local", st["lhs"]["l"], ())
+                val = None
+                if rv["r"] == "use":
+                    kk = rv["o"].get("k")
+                    if kk is not None and kk.get("ty") == "bool":
+                        val = 1 if kk.get("s") == "true" else 0 if kk.get("s") == "false" else None
+                    else:
+                        sp = op_place(rv["o"])
+                        if sp is not None and not sp["p"] and body.local_ty(st["lhs"]["l"]) == "bool":
+                            for f in facts:
+                                if f[0] == "d" and f[1] == ("local", sp["l"], ()):
+                                    val = f[2]
+                elif rv["op"] == "Not" and body.local_ty(st["lhs"]["l"]) == "bool":
+                    sp = op_place(rv["a"])
+                    if sp is not None and not sp["p"]:
+                        for f in facts:
+                            if f[0] == "d" and f[1] == ("local", sp["l"], ()) and f[2] in (0, 1):
+                                val = 1 - f[2]
+                if val is not None:
+                    facts = frozenset(f for f in facts if not (f[0] == "d" and f[1] == lkey)) | {("d", lkey, val)}
             if st["k"] == "assign" and not st["lhs"]["p"] and st["rv"]["r"] == "agg" and st["rv"].get("ak") == "adt" and \
                     st["rv"].get("adt") in ("std::result::Result", "std::option::Option", "std::ops::ControlFlow"):
                 v = st["rv"]["vidx"]
@@ -224,6 +248,13 @@ class PathExplorer:
         if k == "switch":
             info = switch_info(body, bb)
             out = []
+            dpl = op_place(t["d"])
+            if dpl is not None and not dpl["p"] and body.local_ty(dpl["l"]) == "bool":
+                for f in facts:
+                    if f[0] == "d" and f[1] == ("local", dpl["l"], ()):
+                        tv_ = {int(v): b_ for v, b_ in t["targets"]}
+                        self.pruned += 1
+                        return [(tv_.get(f[2], t["otherwise"]), facts, flags, nexted, ret)]
             if info["kind"] in ("discr", "value"):
                 key = canon(body, info["place"], VIEW_PASS if info["kind"] == "value" else None)
                 known = None
@@ -305,3 +336,15 @@ class PathExplorer:
 
     def _is_unreachable(self, bb):
         return self.body.term(bb)["t"] == "unreachable" and not self.body.stmts(bb)
+
+
+def ps_reach(body, start=0, blocked_edges=(), blocked_blocks=()):
+    """Blocks some abstract state reaches from `start` (no initial facts): like common.reach_from, but a path is followed
+    only while the discriminants it has itself fixed (a Result built as Err is Err at the `?` that follows) allow it."""
+    pe = PathExplorer(body)
+    try:
+        pe.run(start=start, blocked=frozenset(blocked_blocks), blocked_edges=frozenset(blocked_edges))
+    except RuntimeError:
+        from common import reach_from
+        return reach_from(body, start, blocked_edges=blocked_edges, blocked_blocks=blocked_blocks)
+    return set(pe.visited_bbs)
